@@ -268,6 +268,15 @@ func writeEvidence(run *checkRun, verif string, discharged int, known, failed []
 	for _, a := range run.w.db.Axioms {
 		trusted = append(trusted, "axiom: "+a.Name)
 	}
+	assumedPosts := map[string]bool{}
+	for _, g := range run.gens {
+		for k := range g.assumedPosts {
+			assumedPosts[k] = true
+		}
+	}
+	for _, k := range sortedSet(assumedPosts) {
+		trusted = append(trusted, "assumed postcondition of a function under contract (handed to callers, not proved of the body): "+k)
+	}
 	for _, k := range sortedSet(abstracted) {
 		trusted = append(trusted, "abstracted external callee (result unconstrained, package state untouched): "+k)
 	}
